@@ -126,7 +126,8 @@ def decide(ctx, P, t0, write_evidence, write_replay, known):
     for v in ir.get("violations", []):
         k = implside.match_known(pid, v, known)
         if k:
-            known_lines.append("KNOWN-FINDING: property=%s %s" % (pid, k))
+            if ("KNOWN-FINDING: property=%s %s" % (pid, k)) not in known_lines:
+                known_lines.append("KNOWN-FINDING: property=%s %s" % (pid, k))
         else:
             violations.append(v)
     failed = cs["failed"]
